@@ -7,6 +7,7 @@ import (
 	"math"
 	"math/bits"
 	"strings"
+	"sync"
 )
 
 type SortKind uint8
@@ -15,6 +16,7 @@ const (
 	SBool SortKind = iota
 	SBV
 	SFP
+	SInt
 )
 
 type Sort struct {
@@ -46,7 +48,177 @@ type Term struct {
 	Name   string // for Op=="var"
 	P1, P2 int    // extract hi, lo / extension amount
 	size   int
-	h      uint64 // structural hash
+	h      uint64   // structural hash
+	Lin    *LinExpr // Op=="lin" (BV64 value equal to this integer expression) or Op=="lincmp" (Lin <=/</= 0)
+	Lo, Hi int64    // static bounds of a "lin" value (inclusive)
+}
+
+// LinExpr is K + sum Coef[i]*Vars[i] over mathematical integers (vars sorted by name, no zero coefficients).
+// Time arithmetic is kept in this form so that the solver sees linear integer constraints instead of 64-bit adders.
+type LinExpr struct {
+	K    int64
+	Vars []string
+	Coef []int64
+}
+
+const linLimit = int64(1) << 60
+
+// upper bounds of the integer variables (all are >= 0); used to recompute tight bounds after cancellation
+var linVarHi sync.Map
+
+func (l *LinExpr) bounds() (lo, hi int64) {
+	lo, hi = l.K, l.K
+	for i, v := range l.Vars {
+		h := int64(1) << 40
+		if x, ok := linVarHi.Load(v); ok {
+			h = x.(int64)
+		}
+		if l.Coef[i] > 0 {
+			hi += l.Coef[i] * h
+		} else {
+			lo += l.Coef[i] * h
+		}
+	}
+	return
+}
+
+// isLinTree: a lin value, a small 64-bit constant, or an if-then-else tree of those.
+func isLinTree(t *Term) bool {
+	if t.Op == "lin" {
+		return true
+	}
+	if t.Op == "ite" && t.S.K == SBV && t.S.W == 64 {
+		return isLinTree(t.Args[1]) && isLinTree(t.Args[2])
+	}
+	if _, _, _, ok := linOf(t); ok {
+		return true
+	}
+	return false
+}
+
+func hasLin(t *Term) bool {
+	if t.Op == "lin" {
+		return true
+	}
+	if t.Op == "ite" && t.S.K == SBV && t.S.W == 64 {
+		return hasLin(t.Args[1]) || hasLin(t.Args[2])
+	}
+	return false
+}
+
+func (l *LinExpr) isConst() bool { return len(l.Vars) == 0 }
+
+func linAdd(a, b *LinExpr, sb int64) *LinExpr {
+	r := &LinExpr{K: a.K + sb*b.K}
+	i, j := 0, 0
+	for i < len(a.Vars) || j < len(b.Vars) {
+		switch {
+		case j >= len(b.Vars) || (i < len(a.Vars) && a.Vars[i] < b.Vars[j]):
+			r.Vars, r.Coef = append(r.Vars, a.Vars[i]), append(r.Coef, a.Coef[i])
+			i++
+		case i >= len(a.Vars) || b.Vars[j] < a.Vars[i]:
+			r.Vars, r.Coef = append(r.Vars, b.Vars[j]), append(r.Coef, sb*b.Coef[j])
+			j++
+		default:
+			c := a.Coef[i] + sb*b.Coef[j]
+			if c != 0 {
+				r.Vars, r.Coef = append(r.Vars, a.Vars[i]), append(r.Coef, c)
+			}
+			i++
+			j++
+		}
+	}
+	return r
+}
+
+func (l *LinExpr) smt() string {
+	if len(l.Vars) == 0 {
+		return intLit(l.K)
+	}
+	parts := []string{}
+	if l.K != 0 {
+		parts = append(parts, intLit(l.K))
+	}
+	for i, v := range l.Vars {
+		if l.Coef[i] == 1 {
+			parts = append(parts, v)
+		} else {
+			parts = append(parts, "(* "+intLit(l.Coef[i])+" "+v+")")
+		}
+	}
+	if len(parts) == 1 {
+		return parts[0]
+	}
+	return "(+ " + strings.Join(parts, " ") + ")"
+}
+
+func intLit(k int64) string {
+	if k < 0 {
+		return fmt.Sprintf("(- %d)", -k)
+	}
+	return fmt.Sprintf("%d", k)
+}
+
+// MkLinVar: a BV64 value that is the integer variable name with 0 <= name < 2^bits.
+func MkLinVar(name string, bits int) *Term {
+	linVarHi.Store(name, int64(1)<<uint(bits)-1)
+	return &Term{Op: "lin", S: BV(64), Lin: &LinExpr{Vars: []string{name}, Coef: []int64{1}}, Lo: 0, Hi: int64(1)<<uint(bits) - 1, size: 1}
+}
+
+func mkLin(l *LinExpr, lo, hi int64) *Term {
+	if l.isConst() {
+		return MkBV(64, uint64(l.K))
+	}
+	if tlo, thi := l.bounds(); tlo > lo || thi < hi {
+		if tlo > lo {
+			lo = tlo
+		}
+		if thi < hi {
+			hi = thi
+		}
+	}
+	return &Term{Op: "lin", S: BV(64), Lin: l, Lo: lo, Hi: hi, size: 1 + len(l.Vars)}
+}
+
+// linOf views a BV64 term as a linear integer expression with bounds, if it is one.
+func linOf(t *Term) (*LinExpr, int64, int64, bool) {
+	if t.Op == "lin" {
+		return t.Lin, t.Lo, t.Hi, true
+	}
+	if t.Op == "const" && t.S.K == SBV && t.S.W == 64 {
+		v := int64(t.C)
+		if v > -linLimit && v < linLimit {
+			return &LinExpr{K: v}, v, v, true
+		}
+	}
+	return nil, 0, 0, false
+}
+
+func linPair(a, b *Term) (la, lb *LinExpr, alo, ahi, blo, bhi int64, ok bool) {
+	if a.Op != "lin" && b.Op != "lin" {
+		return
+	}
+	la, alo, ahi, ok = linOf(a)
+	if !ok {
+		return
+	}
+	lb, blo, bhi, ok = linOf(b)
+	return
+}
+
+// mkLinCmp builds (l rel 0) with rel: 0 "<=", 1 "<", 2 "="
+func mkLinCmp(l *LinExpr, rel int) *Term {
+	if l.isConst() {
+		switch rel {
+		case 0:
+			return MkBool(l.K <= 0)
+		case 1:
+			return MkBool(l.K < 0)
+		default:
+			return MkBool(l.K == 0)
+		}
+	}
+	return &Term{Op: "lincmp", S: BoolSort, Lin: l, P1: rel, size: 1 + len(l.Vars)}
 }
 
 func hashStr(s string) uint64 {
@@ -69,6 +241,12 @@ func (t *Term) Hash() uint64 {
 	for _, a := range t.Args {
 		h = h*1099511628211 + a.Hash()
 	}
+	if t.Lin != nil {
+		h = h*31 + uint64(t.Lin.K)
+		for i, v := range t.Lin.Vars {
+			h = h*1099511628211 + hashStr(v) + uint64(t.Lin.Coef[i])*7919
+		}
+	}
 	if h == 0 {
 		h = 1
 	}
@@ -87,6 +265,19 @@ func structEq(a, b *Term) bool {
 	for i := range a.Args {
 		if !structEq(a.Args[i], b.Args[i]) {
 			return false
+		}
+	}
+	if (a.Lin == nil) != (b.Lin == nil) {
+		return false
+	}
+	if a.Lin != nil {
+		if a.Lin.K != b.Lin.K || len(a.Lin.Vars) != len(b.Lin.Vars) {
+			return false
+		}
+		for i := range a.Lin.Vars {
+			if a.Lin.Vars[i] != b.Lin.Vars[i] || a.Lin.Coef[i] != b.Lin.Coef[i] {
+				return false
+			}
 		}
 	}
 	return true
@@ -288,6 +479,20 @@ func Eq(a, b *Term) *Term {
 	if a.S.K == SFP {
 		return mk("fp.eq", BoolSort, a, b)
 	}
+	if a.S.K == SBV && a.S.W == 64 && (hasLin(a) || hasLin(b)) && isLinTree(a) && isLinTree(b) {
+		if a.Op == "ite" {
+			return Ite(a.Args[0], Eq(a.Args[1], b), Eq(a.Args[2], b))
+		}
+		if b.Op == "ite" {
+			return Ite(b.Args[0], Eq(a, b.Args[1]), Eq(a, b.Args[2]))
+		}
+	}
+	if la, lb, alo, ahi, blo, bhi, ok := linPair(a, b); ok {
+		if ahi < blo || bhi < alo {
+			return tFalse
+		}
+		return mkLinCmp(linAdd(la, lb, -1), 2)
+	}
 	if a.S.K == SBool {
 		if a.IsConst() {
 			if a.C == 1 {
@@ -325,6 +530,48 @@ func BvBin(op string, a, b *Term) *Term {
 		panic(fmt.Sprintf("bv %s sort mismatch %v %v", op, a.S, b.S))
 	}
 	w := a.S.W
+	if (op == "bvadd" || op == "bvsub") && w == 64 && (hasLin(a) || hasLin(b)) && isLinTree(a) && isLinTree(b) {
+		if a.Op == "ite" {
+			return Ite(a.Args[0], BvBin(op, a.Args[1], b), BvBin(op, a.Args[2], b))
+		}
+		if b.Op == "ite" {
+			return Ite(b.Args[0], BvBin(op, a, b.Args[1]), BvBin(op, a, b.Args[2]))
+		}
+	}
+	if la, lb, alo, ahi, blo, bhi, ok := linPair(a, b); ok {
+		switch op {
+		case "bvadd":
+			if lo, hi := alo+blo, ahi+bhi; lo > -linLimit && hi < linLimit {
+				return mkLin(linAdd(la, lb, 1), lo, hi)
+			}
+		case "bvsub":
+			if lo, hi := alo-bhi, ahi-blo; lo > -linLimit && hi < linLimit {
+				return mkLin(linAdd(la, lb, -1), lo, hi)
+			}
+		case "bvmul":
+			var k int64
+			var l *LinExpr
+			var lo, hi int64
+			if la.isConst() {
+				k, l, lo, hi = la.K, lb, blo, bhi
+			} else if lb.isConst() {
+				k, l, lo, hi = lb.K, la, alo, ahi
+			}
+			if l != nil && k > -(1<<20) && k < 1<<20 && lo > -(1<<40) && hi < 1<<40 {
+				r := &LinExpr{K: l.K * k}
+				if k != 0 {
+					for i, v := range l.Vars {
+						r.Vars, r.Coef = append(r.Vars, v), append(r.Coef, l.Coef[i]*k)
+					}
+				}
+				nlo, nhi := lo*k, hi*k
+				if k < 0 {
+					nlo, nhi = nhi, nlo
+				}
+				return mkLin(r, nlo, nhi)
+			}
+		}
+	}
 	if a.IsConst() && b.IsConst() {
 		x, y := a.C, b.C
 		var r uint64
@@ -481,6 +728,53 @@ func BvCmp(op string, a, b *Term) *Term {
 		panic(fmt.Sprintf("bvcmp %s sort mismatch %v %v", op, a.S, b.S))
 	}
 	w := a.S.W
+	if w == 64 && (hasLin(a) || hasLin(b)) && isLinTree(a) && isLinTree(b) {
+		if a.Op == "ite" {
+			return Ite(a.Args[0], BvCmp(op, a.Args[1], b), BvCmp(op, a.Args[2], b))
+		}
+		if b.Op == "ite" {
+			return Ite(b.Args[0], BvCmp(op, a, b.Args[1]), BvCmp(op, a, b.Args[2]))
+		}
+	}
+	if la, lb, alo, ahi, blo, bhi, ok := linPair(a, b); ok {
+		signed := op[2] == 's'
+		if signed || (alo >= 0 && blo >= 0) {
+			switch op[3:] {
+			case "lt": // a < b
+				if ahi < blo {
+					return tTrue
+				}
+				if alo >= bhi {
+					return tFalse
+				}
+				return mkLinCmp(linAdd(la, lb, -1), 1)
+			case "le":
+				if ahi <= blo {
+					return tTrue
+				}
+				if alo > bhi {
+					return tFalse
+				}
+				return mkLinCmp(linAdd(la, lb, -1), 0)
+			case "gt": // b < a
+				if bhi < alo {
+					return tTrue
+				}
+				if blo >= ahi {
+					return tFalse
+				}
+				return mkLinCmp(linAdd(lb, la, -1), 1)
+			case "ge": // b <= a
+				if bhi <= alo {
+					return tTrue
+				}
+				if blo > ahi {
+					return tFalse
+				}
+				return mkLinCmp(linAdd(lb, la, -1), 0)
+			}
+		}
+	}
 	if a.IsConst() && b.IsConst() {
 		x, y := a.C, b.C
 		sx, sy := sext(x, w), sext(y, w)
@@ -514,6 +808,12 @@ func BvCmp(op string, a, b *Term) *Term {
 		}
 	}
 	// push comparisons through ite-of-constants (common for Index results)
+	if b.Op == "lin" && a.Op == "ite" && a.size < 200 {
+		return Ite(a.Args[0], BvCmp(op, a.Args[1], b), BvCmp(op, a.Args[2], b))
+	}
+	if a.Op == "lin" && b.Op == "ite" && b.size < 200 {
+		return Ite(b.Args[0], BvCmp(op, a, b.Args[1]), BvCmp(op, a, b.Args[2]))
+	}
 	if b.IsConst() && a.Op == "ite" && a.Args[1].IsConst() && a.size < 200 {
 		return Ite(a.Args[0], BvCmp(op, a.Args[1], b), BvCmp(op, a.Args[2], b))
 	}
@@ -673,10 +973,12 @@ func FpToBV(a *Term, w int, signed bool) *Term {
 // ---- printing ----
 
 type printer struct {
-	memo  map[*Term]string
-	decls map[string]Sort
-	out   *strings.Builder // definitions / declarations to send before use
-	n     int
+	newDecls []string
+	known    map[string]int
+	memo     map[*Term]string
+	decls    map[string]Sort
+	out      *strings.Builder // definitions / declarations to send before use
+	n        int
 }
 
 func newPrinter() *printer {
@@ -717,9 +1019,24 @@ func (p *printer) str(t *Term) string {
 			s = fpLit(t.C)
 		}
 		return s
+	case "lin", "lincmp":
+		for _, v := range t.Lin.Vars {
+			if _, ok := p.decls[v]; !ok {
+				p.decls[v] = Sort{K: SInt}
+				p.newDecls = append(p.newDecls, v)
+				fmt.Fprintf(p.out, "(declare-const %s Int)\n", v)
+			}
+		}
+		if t.Op == "lin" {
+			return "((_ int2bv 64) " + t.Lin.smt() + ")"
+		}
+		rel := [...]string{"<=", "<", "="}[t.P1]
+		// move negative-coefficient terms to the right-hand side is unnecessary: print (rel expr 0)
+		return "(" + rel + " " + t.Lin.smt() + " 0)"
 	case "var":
 		if _, ok := p.decls[t.Name]; !ok {
 			p.decls[t.Name] = t.S
+			p.newDecls = append(p.newDecls, t.Name)
 			fmt.Fprintf(p.out, "(declare-const %s %s)\n", t.Name, t.S)
 		}
 		return t.Name
@@ -777,6 +1094,23 @@ func evalTerm(t *Term, model map[string]uint64, memo map[*Term]uint64) uint64 {
 	}
 	arg := func(i int) uint64 { return evalTerm(t.Args[i], model, memo) }
 	switch t.Op {
+	case "lin", "lincmp":
+		v := t.Lin.K
+		for i, name := range t.Lin.Vars {
+			v += t.Lin.Coef[i] * int64(model[name])
+		}
+		if t.Op == "lin" {
+			r = uint64(v)
+		} else {
+			switch t.P1 {
+			case 0:
+				r = b2u(v <= 0)
+			case 1:
+				r = b2u(v < 0)
+			default:
+				r = b2u(v == 0)
+			}
+		}
 	case "var":
 		r = model[t.Name] & func() uint64 {
 			if t.S.K == SBV {
